@@ -100,6 +100,15 @@ def gen_inputs(ctx):
             for form in ("bytes", "stream", "str"):
                 out.append(("ExtParse", {"s": T(R.b58check_enc(pay)) if form == "str" else B(pay), "form": form, "asPrv": False, "net": "test"},
                             ("parse-key-tail-byte", "pub", form, tb in WS)))
+    # nodes built with a parent OBJECT (public constructor, `parent=`): the parent fingerprint in the string is that
+    # object's fingerprint, whether or not anything was ever derived from it
+    for _ in range(3 if q else 20):
+        kpar = rng.randrange(1, N)
+        par = mk_node(rng, kpar, 2, 9, rb(4), rb(32), "main")
+        child = mk_node(rng, rng.randrange(1, N), 3, rng.choice(idxs), R.hash160(R.pubkey(kpar))[:4], rb(32), "main")
+        child["parent"] = par
+        for t in (("prv", "main", "bip44"), ("pub", "main", "bip84")):
+            out.append(("ExtSer", {"node": child, "version": ver4(t), "kind": t[0]}, ("ser-node-with-parent-object", t[0])))
     # public serialisation of PUBLIC nodes (no scalar anywhere in the process)
     for _ in range(4 if q else 30):
         node = mk_node(rng, rng.choice(ks), rng.choice(depths), rng.choice(idxs), rng.choice(pfps), rng.choice(ccs),
